@@ -138,6 +138,7 @@ class Agg:
         self.enum_variants = 0
         self.enum_bases = 0
         self.resampled = 0
+        self.line_coverage = None
 
     def add(self, flavour, r):
         self.runs += 1
@@ -351,6 +352,42 @@ def handle_violations(agg, exes, outdir, prop, tier):
     return nviol, nknown
 
 
+def coverage_pass(cfg, tier, base, outdir):
+    """reach measure: line coverage of the library sources over a sample of this check's runs (cov flavour)"""
+    try:
+        exe = ivbuild.build("cov")
+        env = dict(os.environ, LLVM_PROFILE_FILE=os.path.join(outdir, "cov-%4m.profraw"))
+        n = int(os.environ.get("VERIF_COV_RUNS", "1600"))
+        procs = []
+        for fi, part in enumerate(cfg["parts"]):
+            if part["flav"] == "tsan" and len(cfg["parts"]) > 4 and fi > 4:
+                continue
+            share = max(50, n // len(cfg["parts"]))
+            per = (share + 7) // 8
+            for w in range(8):
+                cmd = [exe, part["mode"], part["scen"], part["profile"], str(tier), str(base + 1000003 * fi), str(w * per),
+                       str(per if part["mode"] == "batch" else max(1, per // 40)), outdir, "60"]
+                procs.append(subprocess.Popen(cmd, stdout=subprocess.DEVNULL, stderr=subprocess.DEVNULL, env=env))
+        for p in procs:
+            p.wait()
+        raws = [os.path.join(outdir, f) for f in os.listdir(outdir) if f.endswith(".profraw")]
+        if not raws:
+            return {}
+        prof = os.path.join(outdir, "cov.profdata")
+        subprocess.run(["llvm-profdata-14", "merge", "-o", prof] + raws, check=True, stdout=subprocess.DEVNULL, stderr=subprocess.DEVNULL)
+        out = subprocess.run(["llvm-cov-14", "export", "-summary-only", "-instr-profile", prof, exe], stdout=subprocess.PIPE,
+                             stderr=subprocess.DEVNULL, text=True).stdout
+        res = {}
+        for f in json.loads(out)["data"][0]["files"]:
+            name = f["filename"]
+            if "/src/" in name and "/verif/" not in name and name.endswith(".c"):
+                s = f["summary"]["lines"]
+                res[os.path.basename(name)] = "%d/%d lines (%.0f%%)" % (s["covered"], s["count"], s["percent"])
+        return res
+    except Exception as ex:  # coverage is a reach measure only: never fail a check because of it
+        return {"error": str(ex)}
+
+
 def sample_plan(exe, scen, prop, seed, tier, maxlines=60):
     r = subprocess.run([exe, "gen", scen, prop, str(seed), str(tier)], stdout=subprocess.PIPE, text=True)
     lines = r.stdout.splitlines()
@@ -413,6 +450,8 @@ def check(prop, tier_name):
                         nondet += 1
                         print("MACHINERY-FAULT property=%s seed %d executed twice gives different event logs: %s vs %s" % (prop, r["seed"], first_pass[r["seed"]], got))
             machinery += nondet
+        if tier or os.environ.get("VERIF_COV"):
+            agg.line_coverage = coverage_pass(cfg, tier, base, outdir)
         nviol, nknown = handle_violations(agg, exes, outdir, prop, tier) if agg.viol else (0, 0)
         wall = time.time() - t0
         ev = evidence(prop, tier_name, base, cfg, agg, wall, nviol, exes)
@@ -476,6 +515,8 @@ def evidence(prop, tier_name, base, cfg, agg, wall, nviol, exes):
         components=COMPONENTS,
         flavours=sorted(set(p["flav"] for p in cfg["parts"])),
     )
+    if agg.line_coverage is not None:
+        cov["library_line_coverage_sample"] = agg.line_coverage
     cov["determinism_resample"] = "%d seeds of this run were executed a second time in another process; all event-log hashes agreed" % agg.resampled
     if agg.enum_bases:
         cov["enumerated_base_plans"] = agg.enum_bases
